@@ -60,6 +60,7 @@ class Scenario:
         self.explicit = explicit          # list of -t targets or None
         self.deps = deps
         self.max_group_perm = max_group_perm
+        self.context = None               # surroundings of the run (p_sched.apply_context)
 
     def describe(self):
         return {
@@ -68,11 +69,17 @@ class Scenario:
             "args": self.args, "commands": self.commands, "checkpoint": self.checkpoint,
             "changed": self.changed, "faults": [[c, t, code] for (c, t), code in sorted(self.faults.items())],
             "eager": sorted(list(e) for e in self.eager), "explicit": self.explicit, "deps": self.deps,
-            "sequences": self.sequences,
+            "sequences": self.sequences, "context": self.context,
         }
 
     @staticmethod
     def from_desc(d):
+        sn = Scenario._from_desc(d)
+        sn.context = d.get("context")
+        return sn
+
+    @staticmethod
+    def _from_desc(d):
         return Scenario(d["name"], d["targets"], {(t, c): m for t, c, m in d["cmdmodes"]}, d["args"],
                         d["commands"], d.get("checkpoint"), d.get("changed", ()),
                         {(c, t): code for c, t, code in d.get("faults", [])},
